@@ -83,6 +83,10 @@ func goSyntaxFull(n *node) string {
 	switch n.kind {
 	case "nil":
 		return "nil"
+	case "pk":
+		return fmt.Sprintf("&PK{X: %d}", n.prim.(int64))
+	case "pkmap":
+		return "map[*PK]any{" + pairs(false, false) + "}"
 	case "bool", "string":
 		return goBare(n)
 	case "int", "int8", "int16", "int64", "rune", "uint", "uint16", "uint32", "uint64", "byte", "float32", "float64", "complex64", "complex128":
@@ -277,7 +281,7 @@ func sameWidths(ns ...*node) bool {
 // only builds such maps by accident (a leaf mutation of a key); the laws are not judged on them.
 func wfKeys(n *node) bool {
 	switch n.kind {
-	case "gomap", "map", "msi", "msa", "mapsa":
+	case "gomap", "map", "msi", "msa", "mapsa", "pkmap":
 		for i := range n.kids {
 			for j := i + 1; j < len(n.kids); j++ {
 				if sameKey(n.kids[i], n.kids[j]) {
@@ -335,7 +339,7 @@ func pairLaws(cl age.CollatorLike[any], na, nb *node, a, b any) []string {
 	} else if want := naturalRank(nb, na); want != "" && isRankAns(rBA) && rBA != want {
 		bad = append(bad, fmt.Sprintf("RankValues is not the natural order: Rank(a,b) = %s but a %s b for a = %s, b = %s", rBA, map[string]string{"Lesser": "<", "Equal": "=", "Greater": ">"}[want], sb, sa))
 	}
-	if sameWidths(na, nb) {
+	if sameWidths(na, nb) && !hasIdentityKeys(na) && !hasIdentityKeys(nb) {
 		if isRankAns(rAB) && isBoolAns(cAB) && (rAB == "Equal") != (cAB == "true") {
 			bad = append(bad, fmt.Sprintf("CompareValues and RankValues disagree: Compare(a,b) = %s but Rank(a,b) = %s for a = %s, b = %s", cAB, rAB, sa, sb))
 		} else if isRankAns(rBA) && isBoolAns(cBA) && (rBA == "Equal") != (cBA == "true") {
@@ -362,7 +366,7 @@ func naturalRank(na, nb *node) string {
 	if na.kind == "nil" || nb.kind == "nil" {
 		return cmp(na.kind == "nil" && nb.kind != "nil", na.kind != "nil" && nb.kind == "nil")
 	}
-	if na.kind != nb.kind {
+	if na.kind != nb.kind || na.kind == "pk" {
 		return ""
 	}
 	switch x := na.prim.(type) {
@@ -440,11 +444,23 @@ func naturalRank(na, nb *node) string {
 // what the generator knows about a directed pair: a rebuilt copy is equal, a directed difference is a difference
 func knownRelationLaws(cl age.CollatorLike[any], note string, relation string, na, nb *node, a, b any) []string {
 	var bad []string
+	sa, sb := goSyntax(na), goSyntax(nb)
+	if relation == "rank-equal" {
+		// same contents under keys that are equal by content but not identical Go keys: the ranking must not care
+		for _, q := range []struct {
+			x, y   any
+			sx, sy string
+		}{{a, b, sa, sb}, {b, a, sb, sa}} {
+			if r := askRank(cl, q.x, q.y); isRankAns(r) && r != "Equal" {
+				return []string{fmt.Sprintf("two maps with equal contents do not rank Equal (%s): Rank(a,b) = %s for a = %s, b = %s", note, r, q.sx, q.sy)}
+			}
+		}
+		return nil
+	}
 	if relation != "equal" && relation != "differ" {
 		return nil
 	}
 	equal := relation == "equal"
-	sa, sb := goSyntax(na), goSyntax(nb)
 	for _, q := range []struct {
 		x, y   any
 		sx, sy string
